@@ -298,6 +298,13 @@ def run(ctx):
 
     # --- sample files -------------------------------------------------------------
     files = SAMPLE_FILES[:ctx.n(10, len(SAMPLE_FILES))]
+    if not ctx.quick:
+        # every other small sample file that decodes
+        for d in ('tests/data', 'tests/benchmark_data'):
+            for pth in sorted(glob.glob(os.path.join(lib.REPO, d, '*.bufr'))):
+                rel = os.path.relpath(pth, lib.REPO)
+                if rel not in files and os.path.getsize(pth) <= 6000:
+                    files.append(rel)
     dec = Decoder()
     msgs = []
     for rel in files:
@@ -305,8 +312,12 @@ def run(ctx):
         if not os.path.exists(path):
             ctx.notes.append('sample file missing: ' + rel)
             continue
-        with open(path, 'rb') as f:
-            msg = dec.process(f.read(), file_path=path, wire_template_data=False)
+        try:
+            with open(path, 'rb') as f:
+                msg = dec.process(f.read(), file_path=path, wire_template_data=False)
+        except Exception as e:
+            ctx.dist['sample-file-not-decodable'] += 1
+            continue
         msgs.append((rel, msg))
         ctx.dist['messages-compressed' if msg.is_compressed.value else 'messages-uncompressed'] += 1
         ctx.dist['message-subsets-%s' % ('1' if msg.n_subsets.value == 1 else '2-9' if msg.n_subsets.value < 10 else '10+')] += 1
@@ -339,10 +350,19 @@ def run(ctx):
     k_rand = ctx.n(25, 120)
     for label, msg in msgs + derived:
         n = msg.n_subsets.value
+        reencode = True
+        try:
+            # the encoder (unlike the decoder) needs the exact table directories of the message
+            Encoder().process(copy.deepcopy(msg.subset([0])), wire_template_data=False)
+        except FileNotFoundError:
+            reencode = False
+            ctx.dist['messages-tables-missing-for-encoder'] += 1
+        except Exception:
+            pass            # reported per case below
         cols = index_collections(rng, n, k_rand)
         if n <= 8:
             cols += [[i] for i in range(n) if [i] not in cols]
-        check_message(ctx, msg, label, cols)
+        check_message(ctx, msg, label, cols, reencode=reencode)
 
     # --- the CLI path (command_subset) on one file ---------------------------------
     import subprocess
